@@ -28,6 +28,7 @@
 #include "src/main.h"
 #include "port/timer.h"
 #include "async/async_runtime.h"
+#include "call_out.h"
 
 extern int (*verif_backend_cycle_hook) (void);
 extern int heart_beat_flag;
@@ -414,6 +415,11 @@ static void run_backend (void)
     if (reg && vh_apply_str (reg, "hb_report", 0, 0, res, sizeof res) == 0)
       vh_out ("hbs %s", res);
   }
+  /* a pending call_out holds a reference on the command_giver of the task that scheduled it - and that can be the
+   * master object (new_interactive() leaves command_giver = master_ob behind, a later net_dead() inherits it):
+   * cancel what is still pending, so that the counts below see connection set-up only */
+  for (object_t * ob = obj_list; ob; ob = ob->next_all)
+    remove_all_call_out (ob);
   /* reference counts of the two vital objects relative to the start of backend(): connection set-up takes an
    * extra reference on master_ob and must give it back on every path (accepted, rejected, failing connect()) */
   vh_out ("refs %d %d", master_ob->ref - mref0, (simul_efun_ob ? simul_efun_ob->ref : 0) - sref0);
